@@ -78,7 +78,9 @@ def gen_case(rng):
              ("OSForge", ab_c, True, True, False), ("OSForge", a_bc, True, True, False), ("OSCheck", ab)]
     # error clauses: differing settings, inconsistent operand
     d, bad = regs.S(), regs.S()
-    prog += [("SCopy", b, d), rng.choice([("SSetAmp", d, chans[0], 3), ("SSetSR", d, SR * 2), ("SSetDelay", d, chans[0], dl[chans[0]] + 7 / SR),
+    prog += [("SCopy", b, d), rng.choice([("SSetAmp", d, chans[0], 3), ("SSetSR", d, SR * 2),
+                                           ("SSetAmp", d, chans[0], plan["amp"][chans[0]] * (1 + 3e-10)),      # settings equal up to the 10th digit are different settings
+                                           ("SSetSR", d, SR * (1 + 2e-7)), ("SSetOff", d, chans[0], plan["off"][chans[0]] + 1e-12), ("SSetDelay", d, chans[0], dl[chans[0]] + 7 / SR),
                                            ("SSetFilter", d, chans[0], "HP", 3, SR * 0.2, None)]),
              ("SAdd", a, d, regs.S()), ("SAdd", d, a, regs.S())]
     e_extra, ops = __import__("harness.props.elgen", fromlist=["x"]).safe_element(rng, regs, SR, N, list(chans), kinds=kinds)
